@@ -1,6 +1,5 @@
 """C21 — the firewall admits exactly allowlisted or recognized operators."""
 META = {
-    "disabled": True,
     "level": "model_checking",
     "text": "TLC exhaustively checks a specification that mirrors anyApplicationPolicy.Validate statement by statement (allowlist, "
             "sweep of both time caches, positive hit, negative hit, applications asked in order with yes / no / error answers "
